@@ -99,6 +99,10 @@ impl RunResult {
 
 pub struct RunOpts {
     pub patience: Duration,
+    /// additionally compare the in-process reference with one tabulated in brand-new child
+    /// processes (one per slot): catches process-global "first come" state that makes every later
+    /// instance of the process - the pristine ones included - consistently wrong
+    pub fresh_process: bool,
 }
 
 /// set once the watchdog had to release a run in this process: the code under test evidently
@@ -110,9 +114,9 @@ impl Default for RunOpts {
         let lost = LOST_ONCE.load(std::sync::atomic::Ordering::Relaxed);
         // minimisation candidates of a run that is known to block get a short fuse
         if let Some(ms) = std::env::var("DST_PATIENCE_MS").ok().and_then(|s| s.parse::<u64>().ok()) {
-            return RunOpts { patience: Duration::from_millis(ms) };
+            return RunOpts { patience: Duration::from_millis(ms), fresh_process: false };
         }
-        RunOpts { patience: if lost { Duration::from_millis(250) } else { Duration::from_secs(10) } }
+        RunOpts { patience: if lost { Duration::from_millis(250) } else { Duration::from_secs(10) }, fresh_process: false }
     }
 }
 
@@ -155,6 +159,88 @@ fn tabulate(spec: &RunSpec, reverse: bool) -> Result<RefTable, BuildFail> {
         outs[i] = Some(exec(&*slot, &ops[i]));
     }
     Ok(RefTable { idx, ops, outs: outs.into_iter().map(|o| o.unwrap()).collect() })
+}
+
+/// child side of the fresh-process reference: outcomes of the distinct operations of one slot,
+/// each on a freshly built instance, in a process that has never built anything else
+pub fn ref_child(spec: &RunSpec, slot: usize) -> Vec<Outcome> {
+    let mut out = vec![];
+    if let Ok(t) = tabulate_filtered(spec, Some(slot)) {
+        out = t.outs;
+    }
+    out
+}
+
+fn tabulate_filtered(spec: &RunSpec, only_slot: Option<usize>) -> Result<RefTable, BuildFail> {
+    let mut t = tabulate_ops(spec);
+    let mut outs = vec![];
+    let mut ops = vec![];
+    for op in t.ops.drain(..) {
+        if only_slot.map_or(true, |s| s == op.slot) {
+            let slot = build_slot(&spec.slots[op.slot])?;
+            outs.push(exec(&*slot, &op));
+            ops.push(op);
+        }
+    }
+    Ok(RefTable { idx: vec![], ops, outs })
+}
+
+fn tabulate_ops(spec: &RunSpec) -> RefTable {
+    let mut keys: BTreeMap<String, usize> = BTreeMap::new();
+    let mut ops: Vec<Op> = vec![];
+    for t in &spec.threads {
+        for op in &t.ops {
+            let k = op_key(op);
+            let n = keys.len();
+            let i = *keys.entry(k).or_insert(n);
+            if i == ops.len() {
+                ops.push(op.clone());
+            }
+        }
+    }
+    RefTable { idx: vec![], ops, outs: vec![] }
+}
+
+/// parent side: one brand-new child process per slot tabulates that slot's operations; the
+/// in-process pristine instances must agree with them
+fn fresh_process_check(spec: &RunSpec, res: &mut RunResult) {
+    use std::io::Write;
+    use std::process::{Command, Stdio};
+    let Ok(mine) = tabulate_filtered(spec, None) else { return };
+    let Ok(exe) = std::env::current_exe() else { return };
+    let json = serde_json::to_string(spec).unwrap();
+    for slot in 0..spec.slots.len() {
+        let Ok(mut child) = Command::new(&exe).arg("ref").arg(slot.to_string()).stdin(Stdio::piped()).stdout(Stdio::piped()).stderr(Stdio::null()).spawn() else { return };
+        if let Some(mut si) = child.stdin.take() {
+            let _ = si.write_all(json.as_bytes());
+        }
+        let Ok(out) = child.wait_with_output() else { return };
+        let Ok(theirs) = serde_json::from_slice::<Vec<Outcome>>(&out.stdout) else { continue };
+        let mut k = 0;
+        for (op, m) in mine.ops.iter().zip(mine.outs.iter()) {
+            if op.slot != slot {
+                continue;
+            }
+            let Some(t) = theirs.get(k) else { break };
+            k += 1;
+            res.compared += 1;
+            res.counters.add("reach.compared_with_fresh_process", 1);
+            if !m.same_answer(t) {
+                res.violations.push(Violation {
+                    property: "C17".into(),
+                    kind: "process-history-dependence".into(),
+                    detail: format!(
+                        "a freshly built interpolator in THIS process answers differently from the same configuration in a brand-new process (something built earlier in the process changed it): {}",
+                        mismatch_detail(op, &spec.slots[op.slot], t, m)
+                    ),
+                    thread: usize::MAX,
+                    op: k - 1,
+                    step: res.steps,
+                });
+                return;
+            }
+        }
+    }
 }
 
 fn mismatch_detail(op: &Op, cfg: &SlotCfg, want: &Outcome, got: &Outcome) -> String {
@@ -737,6 +823,9 @@ pub fn run_spec(spec: &RunSpec, prop: Prop, opts: &RunOpts) -> RunResult {
                 }
             }
         }
+    }
+    if prop == Prop::C17 && opts.fresh_process && res.violations.is_empty() {
+        fresh_process_check(spec, &mut res);
     }
     drop(shared);
     drop(ballast);
